@@ -726,15 +726,14 @@ func (e *Eng) dump() {
 	ev["vals"] = vals
 	ev["geterr"] = geterr
 	// ListKeys
+	// (the list is read only after the Fold below has run: a result is the caller's from the return on, whatever the
+	// database is asked next)
 	keys := []int{}
+	var listed [][]byte
 	lkerr := Guard(CallTimeout, func() error {
-		for _, k := range e.DB.ListKeys() {
-			keys = append(keys, e.U.Rank(k))
-		}
+		listed = e.DB.ListKeys()
 		return nil
 	})
-	ev["keys"] = keys
-	ev["lkerr"] = lkerr
 	// Fold
 	fk, fv := []int{}, []int{}
 	folderr := Guard(CallTimeout, func() error {
@@ -745,6 +744,12 @@ func (e *Eng) dump() {
 		})
 	})
 	ev["fk"], ev["fv"], ev["folderr"] = fk, fv, folderr
+	for _, k := range listed {
+		keys = append(keys, e.U.Rank(k))
+		e.retain(k)
+	}
+	ev["keys"] = keys
+	ev["lkerr"] = lkerr
 	e.txf("D %v %s %v %s %v %v %s|", vals, geterr, keys, lkerr, fk, fv, folderr)
 	if lkerr == "panic" || lkerr == "stuck" || folderr == "panic" || folderr == "stuck" {
 		e.Dead = true
